@@ -190,6 +190,24 @@ func checkC10(c c10Case) (ci caseInfo, err error) {
 			var viaMsg *ast.DataMessage
 			pi, _ := try(func() { viaItem = lib.FillVariables(oneCall) })
 			pm, pmsg := try(func() { viaMsg = msg.FillVariables(oneCall) })
+			// one call with counts and generated names is the two calls one after the other (the counts are applied
+			// first, says the documentation of ListNode.FillVariables)
+			if !pi && extra > 0 {
+				onlyNames := map[string]interface{}{}
+				for k, v := range oneCall {
+					if _, isCount := libFill[k]; !isCount {
+						onlyNames[k] = v
+					}
+				}
+				var twoSteps ast.ItemNode
+				if p2, _ := try(func() { twoSteps = res.FillVariables(onlyNames) }); !p2 {
+					if itemString(twoSteps) != itemString(viaItem) || !sameStrings(twoSteps.Variables(), viaItem.Variables()) {
+						return ci, fmt.Errorf("round %d: FillVariables(%v) in one call differs from the counts first and the generated names afterwards:\none call:  %s %q\ntwo calls: %s %q", r+1, oneCall,
+							clipStr(itemString(viaItem), 400), viaItem.Variables(), clipStr(itemString(twoSteps), 400), twoSteps.Variables())
+					}
+					ci.label("one-call==two-calls")
+				}
+			}
 			switch {
 			case pi != pm:
 				return ci, fmt.Errorf("round %d: FillVariables(%v) on the item panics=%v, on a message holding the item panics=%v (%s)", r+1, oneCall, pi, pm, pmsg)
@@ -280,6 +298,13 @@ func genC10(t *rapid.T) c10Case {
 		}
 	}
 	c.Tree = root
+	if rapid.IntRange(0, 3).Draw(t, "indexedNames") == 3 {
+		// the variables already carry an index (as left behind by an earlier expansion, or chosen by the user):
+		// the base names stay distinct, so no generated name can meet an existing one
+		for _, a := range singleFills(root) {
+			renameVar(root, a.Name, fmt.Sprintf("%s[%d]", a.Name, rapid.IntRange(0, 12).Draw(t, "nameIndex")))
+		}
+	}
 	ne := numberEllipses(root)
 	if ne == 1 && rapid.Bool().Draw(t, "plainName") {
 		root.Walk(func(x *model.Node) {
